@@ -21,17 +21,18 @@ Mon14 == INSTANCE Mon_C14
 Mon04 == INSTANCE Mon_C04
 Mon12 == INSTANCE Mon_C12
 Mon07 == INSTANCE Mon_C07
+Mon11 == INSTANCE Mon_C11
 
 MInit == CASE MonName = "C03" -> Mon03!MonInit [] MonName = "C13" -> Mon13!MonInit
            [] MonName = "C05" -> Mon05!MonInit [] MonName = "C14" -> Mon14!MonInit
            [] MonName = "C04" -> Mon04!MonInit [] MonName = "C12" -> Mon12!MonInit
-           [] MonName = "C07" -> Mon07!MonInit
+           [] MonName = "C07" -> Mon07!MonInit [] MonName = "C11" -> Mon11!MonInit
            [] OTHER -> [viol |-> <<>>]
 MStep(mm, e, l) ==
     CASE MonName = "C03" -> Mon03!MonStep(mm, e, l) [] MonName = "C13" -> Mon13!MonStep(mm, e, l)
       [] MonName = "C05" -> Mon05!MonStep(mm, e, l) [] MonName = "C14" -> Mon14!MonStep(mm, e, l)
       [] MonName = "C04" -> Mon04!MonStep(mm, e, l) [] MonName = "C12" -> Mon12!MonStep(mm, e, l)
-      [] MonName = "C07" -> Mon07!MonStep(mm, e, l)
+      [] MonName = "C07" -> Mon07!MonStep(mm, e, l) [] MonName = "C11" -> Mon11!MonStep(mm, e, l)
       [] OTHER -> mm
 MViol(mm) == IF MonName \in {"C05", "C14"} THEN mm.L.viol ELSE mm.viol
 \* only the violations of the property under check count
